@@ -735,8 +735,11 @@ func ruleNameResolution(c *Ctx, r *Repo, rule string) {
 				store := hasStep(p, "store V.Name = "+sug) == 1
 				add := p.CallsTo("MethodScope).AddName")
 				okAdd := len(add) == 1 && (add[0].Args[0] == "V.Name" || add[0].Args[0] == sug)
-				// the AddName must come after the store
-				if !(store && okAdd && p.Exit == "end") {
+				// a variable whose name is free may keep it without asking (SuggestName(x) == x exactly when
+				// x does not exist yet: C15's SuggestName rule); it must still be registered
+				exists, tested := p.atom("RECV.NameExists<(template.MethodScope).NameExists>(V.Name)")
+				keeps := !store && tested && !exists && hasStep(p, "store V.Name = ") == 0 && len(add) == 1 && add[0].Args[0] == "V.Name"
+				if !((store && okAdd || keeps) && (p.Exit == "end" || p.Exit == "continue")) {
 					ok = false
 				}
 			}
@@ -760,16 +763,19 @@ func ruleTypeParams(c *Ctx, r *Repo, rule string) {
 		return
 	}
 	c.Func(funcKey(ip, fd))
-	var loop *ast.ForStmt
+	var loop *struct{ Body *ast.BlockStmt }
+	var liv types.Object
+	var lbound ast.Expr
 	for _, s := range fd.Body.List {
-		if fs, ok := s.(*ast.ForStmt); ok {
-			loop = fs
+		if iv, bound, body, ok := indexLoopIn(info, fd, s); ok {
+			loop = &struct{ Body *ast.BlockStmt }{body}
+			liv, lbound = iv, bound
 		}
 	}
 	ok := false
 	if loop != nil {
 		fct := newFuncCanon(info, fd)
-		if iv, bound, isLoop := countingLoop(info, loop); isLoop && (strings.HasPrefix(fct.E(bound), "builtin.len(") && typeIs(info.TypeOf(bound.(*ast.CallExpr).Args[0]), "[]template.TypeParam") || fct.E(bound) == "ARG1.Len<(go/types.TypeParamList).Len>()") {
+		if iv, bound, isLoop := liv, lbound, true; isLoop && (strings.HasPrefix(fct.E(bound), "builtin.len(") && typeIs(info.TypeOf(bound.(*ast.CallExpr).Args[0]), "[]template.TypeParam") || fct.E(bound) == "ARG1.Len<(go/types.TypeParamList).Len>()") {
 			s := nodeString(loop.Body)
 			at := false
 			ast.Inspect(loop.Body, func(n ast.Node) bool {
@@ -783,7 +789,11 @@ func ruleTypeParams(c *Ctx, r *Repo, rule string) {
 			store := false
 			ast.Inspect(loop.Body, func(n ast.Node) bool {
 				if as, isAs := n.(*ast.AssignStmt); isAs && len(as.Lhs) == 1 {
-					if ie, isIdx := as.Lhs[0].(*ast.IndexExpr); isIdx && typeIs(info.TypeOf(ie.X), "[]template.TypeParam") {
+					lhs := ast.Unparen(as.Lhs[0])
+					if se, isSel := lhs.(*ast.SelectorExpr); isSel {
+						lhs = ast.Unparen(se.X) // element filled field by field: tpd[i].Var = ..
+					}
+					if ie, isIdx := lhs.(*ast.IndexExpr); isIdx && typeIs(info.TypeOf(ie.X), "[]template.TypeParam") {
 						if id, isId := ie.Index.(*ast.Ident); isId && info.Uses[id] == iv {
 							store = true
 						}
